@@ -95,6 +95,7 @@ func genUndBig(g *vlib.G) {
 				key := fmt.Sprintf("n=%d m~%d seed=%d", n, m, seed)
 				g.Case(key, func(t *vlib.T) {
 					s := s
+					wUnit = 1
 					o := newUndirOracle(&s)
 					chi := s.chromatic()
 					ps := partials(s.n)
@@ -122,7 +123,7 @@ func genUndBig(g *vlib.G) {
 							})
 							runSticky(t, "und-big", key+"|exact", idk, v, func(c *chk) { exactColoring(c, b, chi, false) })
 							bw, wg := buildWeighted(&s, idk, v, w)
-							run(t, "und-big", key+"|span", idk, v, func(c *chk) { spanChecks(c, bw, wg, w, -1, len(o.comps)) })
+							run(t, "und-big", key+"|span", idk, v, func(c *chk) { spanChecks(c, bw, wg, w, 0, false, len(o.comps)) })
 						}
 					}
 					t.Nontrivial()
